@@ -202,6 +202,9 @@ def run(ctx: Context) -> None:
 
 def _translate(idx, reg, m, call: ast.Call, angles: List[sp.Symbol], depth: int = 0):
     """Evaluate builder(args) → product matrix on the 2 rails."""
+    # the list of modes is the second parameter of the mapping function, whatever it is called
+    mp_ = m.functions.get("_map_qiskit_instr_to_pq")
+    modes_name = mp_.params()[1] if mp_ is not None and len(mp_.params()) > 1 else "modes"
     fn = m.functions.get(call.func.id)
     if fn is None:
         raise Untranslatable(f"E6: builder {call.func.id} not found")
@@ -213,7 +216,7 @@ def _translate(idx, reg, m, call: ast.Call, angles: List[sp.Symbol], depth: int 
             txt = norm(a.value)
             if txt.endswith(".params"):
                 actual.extend(angles)
-            elif txt == "modes":
+            elif txt == modes_name:
                 actual.extend([("mode", 0), ("mode", 1)])
             else:
                 raise Untranslatable(f"E6: cannot bind `*{txt}`")
@@ -221,7 +224,7 @@ def _translate(idx, reg, m, call: ast.Call, angles: List[sp.Symbol], depth: int 
         txt = norm(a)
         if ".params[" in txt and isinstance(a, ast.Subscript) and isinstance(a.slice, ast.Constant):
             actual.append(angles[a.slice.value])
-        elif txt.startswith("modes[") and isinstance(a, ast.Subscript) and isinstance(a.slice, ast.Constant):
+        elif isinstance(a, ast.Subscript) and isinstance(a.value, ast.Name) and a.value.id == modes_name and isinstance(a.slice, ast.Constant):
             actual.append(("mode", a.slice.value))
         else:
             raise Untranslatable(f"E6: cannot bind the argument `{txt}` of {call.func.id}")
